@@ -272,6 +272,11 @@ def run_shard(spec, acc):
         anything = rnd.random() < 0.1
         if anything:
             verb, exc, objects = "should_not", False, []
+        elif rnd.random() < 0.06:
+            # the subject layer is ALSO one of the object layers ("A should access A and B"): a layer is a unit like any other
+            objects = objects + [subject]
+            rnd.shuffle(objects)
+            acc.count("layer_rules_whose_subject_layer_is_also_an_object_layer")
         forced = rnd.random()
         in_layer = lambda L: [m for m in mods if any(m == x or is_ancestor(x, m) for x in layers[L])]  # noqa: E731
         if forced < 0.12 and len(in_layer(subject)) >= 2:
